@@ -247,7 +247,13 @@ def r08d(model: Model, rr: RuleResult):
     fi = model.func("write_font", "_ufo")
     for st in walk_body(fi):
         if isinstance(st, ast.Assign) and any("ufo.info" in norm(t) or "ufo.lib" in norm(t) for t in st.targets):
-            nm = names_in(st.value) - {"config", "ufo", "ufo2ft", "keep"}
+            from ..dataflow import resolved, fold_module_constants
+            ucfg = cfg_of(fi)
+            rv = fold_module_constants(resolved(ucfg, ucfg.node_for(st), st.value), fi)
+            cparam = fi.params[0] if fi.params else "config"
+            nm = names_in(rv) - {cparam, "config", "ufo", "ufo2ft", "keep", "True", "False", "None"}
+            # locals that are themselves alternatives over config-derived values (if/else assigned) are fine
+            nm = {x for x in nm if not all(names_in(d.value) <= {cparam, "config", "ufo", "ufo2ft", "True", "False", "None"} for d in ucfg.reaching(ucfg.node_for(st), x) if d.value is not None) or not ucfg.reaching(ucfg.node_for(st), x)}
             if nm:
                 rr.bad_shape(fi, st, f"font info field set from {sorted(nm)}", construct=short(st))
             else:
